@@ -209,6 +209,14 @@ Definition new_adts (freq : Z) (chan ot plen : N) : res adts :=
        | Some sfi => Ok (mkAdts 0 ot sfi chan 7 plen 2047)
        end.
 
+(* func (a ADTSHeader) Frequency() uint16 { return uint16(FrequencyTable[a.SamplingFrequencyIndex]) }
+   (a missing map key yields 0) *)
+Definition adts_frequency (h : adts) : N :=
+  match freq_of_index (h_sfi h) with
+  | Some f => Z.to_N (f mod 65536)
+  | None => 0
+  end.
+
 (* func (a ADTSHeader) Encode() []byte *)
 Definition adts_bits (h : adts) : list bool :=
   to_bits 12 4095 ++ to_bits 4 1
